@@ -70,6 +70,7 @@ def check(repo, tier="quick"):
     res.rule("C07.c", "autofill_major_version consults exactly the version-implication rules the validator enforces, under the same field conditions")
     res.rule("C07.d", "automatic picture numbers: same wrap mask as the validator, restart per sequence, incremented for pictures and for fragments only when fragment_slice_count == 0")
     res.rule("C07.f", "per-sequence scope: in every autofill routine, each local that is rebound inside the loop over sequences is definitely (re)assigned within one iteration of that loop before it is read -- no version, picture number or flag is carried from one sequence into the next")
+    res.rule("C07.g", "history independence: the autofill module keeps no state between calls; no swapped same-named arguments")
     res.rule("C07.e", "parse offsets: only recorded (AUTO) positions are patched after serialisation; next offset 0 for the last data unit, previous 0 for the first; distances from the recorded _offset values")
 
     m = repo.mod(AF)
@@ -82,6 +83,11 @@ def check(repo, tier="quick"):
     rule_d(repo, res, m)
     rule_e(repo, res, m)
     rule_f(repo, res, m)
+    from .. import globals_state, lints
+
+    globals_state.rule(repo, res, "C07.g", ["bitstream.vc2_autofill"], what="the values filled in for one stream")
+    lints.rule(repo, res, "C07.g", ["bitstream.vc2_autofill"])
+    res.floor("C07.g", 3)
     res.floor("C07.f", 3)
     res.floor("C07.a", 6)
     res.floor("C07.b", 7)
